@@ -106,8 +106,40 @@ def rule_r2(ctx, rid="C19.R2"):
             need["connected"] = any(pol and dotted(t) == "self.connected" for (t, pol) in gs)
             need["a request is in progress"] = any(pol and isinstance(t, ast.Compare) and "self.request is not None" == norm(t) for (t, pol) in gs) or \
                 any((not pol) and norm(t) == "self.request is None" for (t, pol) in gs)
+            # the test "I am the last queued request" and the removal of that request are ONE critical section: were the
+            # lock released in between, the I/O thread could parse an expecting head there, see a request still queued and
+            # leave the interim response to the worker - which has already made its test
+            pops = [m for m in g.nodes if m.kind == "stmt" and m.ast is not None and (any(isinstance(c, ast.Call) and dotted(c.func) == "self.requests.pop" for c in ast.walk(m.ast))
+                                                                                    or (isinstance(m.ast, ast.Delete) and any(isinstance(t, ast.Subscript) and dotted(t.value) == "self.requests" for t in m.ast.targets)))]
+            owner_tests = [b for (_t, pol, b) in g.guards(n) if mentions(b.ast, "self.requests")]
+            if not pops or not owner_tests:
+                raise AnalysisError("anchor vanished: the removal of the finished request / the ownership test in service()")
+            src = owner_tests[0]
+            fwd = g.reach(src, follow_exc=False)
+            gap = None
+            for pnode in pops:
+                if pnode.id not in fwd:
+                    continue
+                for m in g.nodes:
+                    if m.id in fwd and m is not src and m is not pnode and pnode.id in g.reach(m, follow_exc=False) and g.path(src, m, avoid=[pnode], follow_exc=False) is not None \
+                            and m.ast is not None and REQ_LOCK not in lk.held_at(f, m):
+                        gap = m
+            if gap is None:
+                ctx.r.ok(rid, "the ownership test of the worker-side sender and the removal of the finished request are one requests-lock region", f.loc(n.ast))
+            else:
+                ctx.r.violation(rid, key_of(f, None, "continue-test-pop-not-atomic"), "the requests lock is not held from the worker's test `%s` to the removal of its request (released at line %s): the I/O thread can parse an expecting head in between, finds a request still queued and sends nothing - and the worker has already tested: nobody sends the interim response" % (norm(src.ast)[:60], getattr(gap.ast, "lineno", "?")), f.loc(n.ast))
         else:
             need["no request queued"] = any((not pol) and dotted(t) == "self.requests" for (t, pol) in gs)
+            # the I/O-side test reads the parser AFTER it was fed the bytes of this round: the call that can finish the
+            # head dominates the sender (tested before the feed, a head that ends exactly at the end of a read is never
+            # answered - the client sends nothing more until it got the interim response)
+            feeds = [m for m in g.nodes if m.ast is not None and m.kind in ("stmt", "branch", "test") and any(isinstance(c, ast.Call) and isinstance(c.func, ast.Attribute) and c.func.attr == "received" and dotted(c.func.value) in ("self.request", "request") for c in ast.walk(m.ast))]
+            if not feeds:
+                raise AnalysisError("anchor vanished: the parser feed in HTTPChannel.received")
+            if any(g.dominates(m, n) and g.path(m, n, avoid=[x for x in g.nodes if x.kind == "join" and x.label == "loop_head"], follow_exc=False) is not None for m in feeds):
+                ctx.r.ok(rid, "the I/O-side sender tests the parser after feeding it this round's bytes", f.loc(n.ast))
+            else:
+                ctx.r.violation(rid, key_of(f, None, "continue-test-before-feed"), "send_continue() in received() is decided before the parser was fed the bytes of this round: an expecting head that ends with the read is answered only when more bytes arrive - which a waiting client never sends", f.loc(n.ast))
         for k, v in need.items():
             if v:
                 ctx.r.ok(rid, "%s-side sender guarded by: %s" % (f.name, k), f.loc(n.ast))
